@@ -31,6 +31,7 @@ var (
 	ErrDecimalPrecisionTooHigh         = fmt.Errorf("precision is set to more than %d digits", aseMaxDecimalDigits)
 	ErrDecimalPrecisionTooLow          = fmt.Errorf("precision is set to less than 0 digits")
 	ErrDecimalScaleTooHigh             = fmt.Errorf("scale is set to more than %d digits", aseMaxDecimalDigits)
+	ErrDecimalScaleTooLow              = fmt.Errorf("scale is set to less than 0 digits")
 	ErrDecimalScaleBiggerThanPrecision = fmt.Errorf("scale is bigger then precision")
 )
 
@@ -86,6 +87,10 @@ func (dec Decimal) sanity() error {
 
 	if dec.Scale > aseMaxDecimalDigits {
 		return ErrDecimalScaleTooHigh
+	}
+
+	if dec.Scale < 0 {
+		return ErrDecimalScaleTooLow
 	}
 
 	if dec.Scale > dec.Precision {
@@ -183,10 +188,25 @@ func (dec *Decimal) SetString(s string) error {
 	s = strings.TrimSpace(s)
 
 	split := strings.Split(s, ".")
+	if len(split) > 2 {
+		return fmt.Errorf("failed to parse number %s: more than one decimal point", s)
+	}
+
 	left := split[0]
 	right := ""
 	if len(split) > 1 {
 		right = split[1]
+	}
+
+	// The fractional part may only consist of digits and must fit
+	// into the scale, otherwise the value would be changed silently.
+	if strings.Trim(right, "0123456789") != "" {
+		return fmt.Errorf("failed to parse number %s: invalid fractional part", s)
+	}
+
+	if len(right) > dec.Scale {
+		return fmt.Errorf("number %s has %d fractional digits, scale is %d",
+			s, len(right), dec.Scale)
 	}
 
 	// Set underlying big.Int structure to the whole number
@@ -200,6 +220,13 @@ func (dec *Decimal) SetString(s string) error {
 		mul := big.NewInt(10)
 		mul.Exp(mul, big.NewInt(int64(dec.Scale-len(right))), nil)
 		i.Mul(i, mul)
+	}
+
+	// The number must not have more digits than the precision allows.
+	max := big.NewInt(10)
+	max.Exp(max, big.NewInt(int64(dec.Precision)), nil)
+	if big.NewInt(0).Abs(i).Cmp(max) >= 0 {
+		return fmt.Errorf("number %s has more than %d digits", s, dec.Precision)
 	}
 
 	dec.i = i
